@@ -16,10 +16,9 @@ Lemma step_safe : forall s b src env rest,
   safe_from env (map du (step_stmts s b src) ++ rest) = true.
 Proof.
   intros s b src env rest Hsrc Hrest. unfold step_stmts.
-  destruct (s_inv s); [|destruct (s_fetch s)]; cbn [map du app safe_from forallb]; rewrite ?Hsrc; cbn [andb].
-  - apply Hrest, in_strs_hd.
-  - rewrite in_strs_hd. cbn [andb]. apply Hrest, in_strs_hd.
-  - rewrite !in_strs_hd. cbn [andb]. apply Hrest, in_strs_hd.
+  destruct (custom_name (s_iri s)) as [name|]; (destruct (s_inv s); [|destruct (s_fetch s)]);
+    cbn [map du app safe_from forallb]; rewrite ?Hsrc; cbn [andb]; rewrite ?in_strs_hd; cbn [andb];
+    rewrite ?in_strs_hd; cbn [andb]; apply Hrest, in_strs_hd.
 Qed.
 
 Lemma emit_safe_from : forall v steps k src env, in_strs src env = true ->
